@@ -16,6 +16,7 @@ import (
 //	tsedit <gen> <xheader> | ins <xk> <xv> | del <xk> | get <xk> ... => <r0> | <r1> | ...
 //	tssib <gen> <xheader> | <j> ins <xk> <xv> | <j> del <xk> | <j> get <xk> | <j> walk <n> ... => <r0> | <r1> | ...
 //	    (every op names the earlier value j it applies to; all earlier values are re-read after every op)
+//	idjson <gen> <xtid> <xsid> <flags> <remote> <members> => builderr | String() x3, MarshalJSON x5, FromHex(String()) x2
 //	scops <gen> <xtid> <xsid> <flags> <remote> <members> | tid <x> | sid <x> | fl <n> | rem <0|1> | ts <members> | sampled <0|1>
 //	    => builderr | <d0> | <d1> ...   d = <xtid>:<xsid>:<flags>:<remote>:<xtsString>:<valid>:<sampled>:<Equal(previous)>
 //
@@ -36,7 +37,9 @@ func TestVerifC03Ts(t *testing.T) {
 		c.exhaustive()
 	}
 	for i := 0; i < n; i++ {
-		switch r.Intn(20) {
+		switch r.Intn(21) {
+		case 20:
+			c.idjson(r)
 		case 19:
 			c.limits(r)
 		case 16, 17:
@@ -307,6 +310,9 @@ func (c *c03ts) replay(f []string) {
 		c.idHexOne(f[1], f[2], vUnhex(f[3]))
 	case "parsets":
 		c.parseTS(f[1], vUnhex(f[2]))
+	case "idjson":
+		fl, _ := strconv.Atoi(f[4])
+		c.idjsonRun(f[1], vUnhex(f[2]), vUnhex(f[3]), byte(fl), f[5] == "1", f[6])
 	case "tssib":
 		c.sibRun(f[1], vUnhex(f[2]), c03Groups(f[3:]))
 	case "scops":
@@ -866,4 +872,66 @@ func (c *c03ts) limits(r *vRand) {
 		}
 		c.parseTS("lim", strings.Join(ms, ","))
 	}
+}
+
+// ---- String / MarshalJSON / FromHex of the identifiers, flags, tracestate and span context ----
+
+func (c *c03ts) idjsonRun(gen, tid, sid string, flags byte, remote bool, mem string) {
+	var res string
+	func() {
+		defer func() {
+			if e := recover(); e != nil {
+				res = "panic"
+			}
+		}()
+		ts, ok := c03BuildTS(mem)
+		if !ok {
+			res = "builderr"
+			return
+		}
+		var cfg SpanContextConfig
+		copy(cfg.TraceID[:], tid)
+		copy(cfg.SpanID[:], sid)
+		cfg.TraceFlags = TraceFlags(flags)
+		cfg.TraceState = ts
+		cfg.Remote = remote
+		sc := NewSpanContext(cfg)
+		mj := func(b []byte, err error) string {
+			if err != nil {
+				return "err"
+			}
+			return vHexB(b)
+		}
+		th, sh := "err", "err"
+		if t, err := TraceIDFromHex(sc.TraceID().String()); err == nil {
+			th = "ok:" + vHexB(t[:])
+		}
+		if s, err := SpanIDFromHex(sc.SpanID().String()); err == nil {
+			sh = "ok:" + vHexB(s[:])
+		}
+		res = strings.Join([]string{vHex(sc.TraceID().String()), vHex(sc.SpanID().String()), vHex(sc.TraceFlags().String()),
+			mj(sc.TraceID().MarshalJSON()), mj(sc.SpanID().MarshalJSON()), mj(sc.TraceFlags().MarshalJSON()),
+			mj(sc.TraceState().MarshalJSON()), mj(sc.MarshalJSON()), th, sh}, " ")
+	}()
+	tb, sb := make([]byte, 16), make([]byte, 8)
+	copy(tb, tid)
+	copy(sb, sid)
+	c.out.Line("idjson %s %s %s %d %d %s => %s", gen, vHexB(tb), vHexB(sb), flags, c03b(remote), mem, res)
+}
+
+func (c *c03ts) idjson(r *vRand) {
+	n := vPick(r, []int{0, 1, 2, 3, 32})
+	var ps []string
+	for i := 0; i < n; i++ {
+		v := c03ShortVal(r)
+		if r.Intn(3) == 0 {
+			v = vPick(r, []string{"\"", "\\", "<", ">", "&", "a\"b\\c", "<x>&", "'", "/", "\\u0041", "~"}) + v
+		}
+		ps = append(ps, vHex("m"+strconv.Itoa(i)+c03KeyPart(r, "ab", r.Intn(3)))+":"+vHex(v))
+	}
+	mem := "-"
+	if n > 0 {
+		mem = strings.Join(ps, ",")
+	}
+	c.idjsonRun("gen", c03RandID(r, 16), c03RandID(r, 8), byte(vPick(r, []int{0, 1, 2, 3, 255, r.Intn(256)})), r.Bool(), mem)
 }
